@@ -24,6 +24,12 @@ func (k Keeper) RegisterCoin(ctx sdk.Context, coinMetadata banktypes.Metadata) (
 		return nil, sdkerrors.Wrap(types.ErrERC20Disabled, "registration is currently disabled by governance")
 	}
 
+	// a denomination that reads as a hex address would be resolved through the
+	// ERC20 address index by GetTokenPairID and could never be found by its name
+	if common.IsHexAddress(coinMetadata.Base) {
+		return nil, sdkerrors.Wrapf(types.ErrInternalTokenPair, "base denomination '%s' is indistinguishable from an ERC20 address", coinMetadata.Base)
+	}
+
 	evmDenom := k.evmKeeper.GetParams(ctx).EvmDenom
 	if coinMetadata.Base == evmDenom {
 		return nil, sdkerrors.Wrapf(types.ErrEVMDenom, "cannot register the EVM denomination %s", evmDenom)
@@ -69,6 +75,12 @@ func (k Keeper) AddCoin(ctx sdk.Context, coinMetadata banktypes.Metadata, contra
 	params := k.GetParams(ctx)
 	if !params.EnableAggregate {
 		return nil, sdkerrors.Wrap(types.ErrERC20Disabled, "registration is currently disabled by governance")
+	}
+
+	// a denomination that reads as a hex address would be resolved through the
+	// ERC20 address index by GetTokenPairID and could never be found by its name
+	if common.IsHexAddress(coinMetadata.Base) {
+		return nil, sdkerrors.Wrapf(types.ErrInternalTokenPair, "base denomination '%s' is indistinguishable from an ERC20 address", coinMetadata.Base)
 	}
 
 	evmDenom := k.evmKeeper.GetParams(ctx).EvmDenom
